@@ -734,7 +734,9 @@ def _install_tpl_stub():
 
 
 _install_tpl_stub()
-TPL_SEL = [{}, {"var": "off"}, {"var": "fix"}, {"var": "off", "len_scale": "off"}]
+TPL_SEL = [{}, {"var": "off"}, {"var": "fix"}, {"var": "off", "len_scale": "off"},
+           # two fixed values, the variance named first / last: the later assignments rescale var_factor
+           {"var": "fix", "hurst": "fix"}, {"hurst": "fix", "var": "fix"}, {"var": "fix", "len_low": "fix", "len_scale": "fix"}]
 TPL_SEL_T = [{"var": "off", "nugget": "off"}, {"len_scale": "off"}, {"hurst": "off"}, {"var": "off", "len_low": "fix"}]
 
 
